@@ -93,6 +93,9 @@ inductive Act
   | commit                         -- leaving the db_session normally
   | commitMid                      -- commit() / db.commit() INSIDE the db_session: the transaction ends, the session goes on
   | rollback                       -- leaving it with an exception
+  | refused                        -- a locking load whose BEGIN IMMEDIATE was refused ("database is locked": a foreign writer, an injected
+                                   -- fault) and whose error the APPLICATION caught: set_transaction_mode has released the lock again
+                                   -- and left `in_transaction` False; the session goes on and may retry
   | begin                          -- only the first half of an operation: acquire_lock + BEGIN IMMEDIATE (call-granularity runs)
   deriving Repr, DecidableEq, Inhabited
 
@@ -231,6 +234,7 @@ def step (n : Nat) (σ : St) (s : Sid) (a : Act) : St × Res :=
   | .commit => (commitSess n σ s true, .ok none)
   | .commitMid => (commitSess n σ s false, .ok none)
   | .rollback => (failSess σ s, .ok none)
+  | .refused => (σ, .busy)
   | .begin =>
       match ensureTxn n σ s with
       | .blocked σ' => (σ', .blocked)
@@ -276,7 +280,8 @@ structure Src where
   /-- `_find_in_cache_`: `if for_update and obj not in cache.for_update: return None, unique`   (lockRead always queries) -/
   cacheHitNeedsLock : Bool
   /-- sqlite `set_transaction_mode`: `if cache.immediate: provider.acquire_lock()` before any cursor use, the literal
-      `BEGIN IMMEDIATE TRANSACTION`, `finally: if cache.immediate and not cache.in_transaction: release_lock()` (ensureTxn) -/
+      `BEGIN IMMEDIATE TRANSACTION` executed BEFORE `cache.in_transaction = True`,
+      `finally: if cache.immediate and not cache.in_transaction: release_lock()` (ensureTxn; `refused`) -/
   lockBeforeBegin : Bool
   /-- sqlite `commit` / `rollback` / `drop`: `finally: if in_transaction: cache.in_transaction = False; release_lock()` -/
   endReleasesLock : Bool
